@@ -59,7 +59,9 @@ GetOutcome(status) == IF status = 200 THEN "ok" ELSE IF status = 404 THEN "notfo
    code-unit) sequence b into non-empty pieces.  What a listing or a download returns is a function of the
    concatenation only (FrameInvariance: the wrappers above take the body, not its framing) -- in particular a
    multi-byte character of a key may straddle a frame boundary.  A body whose connection closes before the
-   announced length has arrived is a failed transfer: the download is an error, never an Ok with other bytes. *)
+   announced length has arrived is a failed transfer: the download is an error, never an Ok with other bytes.  The length
+   may also not be announced at all (Transfer-Encoding: chunked): the body is then the concatenation of the chunks -- the
+   same Concat, one level down -- and the result must be the same as with a Content-Length. *)
 RECURSIVE Frames(_)
 Frames(b) == IF b = <<>> THEN {<<>>} ELSE UNION {{<<SubSeq(b, 1, n)>> \o f : f \in Frames(SubSeq(b, n + 1, Len(b)))} : n \in 1..Len(b)}
 RECURSIVE Concat(_)
